@@ -578,7 +578,11 @@ impl<K: Kmer, D: Debug> DebruijnGraph<K, D> {
         }
 
         for (target, dir, _) in node.r_edges() {
-            if target > node.node_id as usize {
+            // a right-side hairpin (this node's right end joined to its own right end) is only
+            // reported from the right side, so it must be written here
+            if target > node.node_id as usize
+                || (target == node.node_id as usize && matches!(dir, Dir::Right))
+            {
                 let to_dir = match dir {
                     Dir::Left => "+",
                     Dir::Right => "-",
